@@ -1191,6 +1191,30 @@ def np_ravel(interp, name, args, kw, st, node):
     return reshape_to(interp, arrv(args[0]), [vconst(-1)], st, node)
 
 
+@reg("numpy.linalg.matrix_transpose", "numpy.matrix_transpose")
+def np_matrix_transpose(interp, name, args, kw, st, node):
+    """the two trailing axes swapped (NumPy 2 spelling of x.T for a matrix / transpose(x, (0, 2, 1)) for a stack)"""
+    x = arrv(args[0] if args else kw.get("x"))
+    sh = shape(x)
+    if sh is not None and len(sh) == 2:
+        return transpose(interp, x, None)
+    if sh is not None and len(sh) == 3:
+        return transpose(interp, x, interp.mk_tuple([vconst(0), vconst(2), vconst(1)]))
+    return fresh_arr(callterm(name, args, kw), None, _L(*args))
+
+
+@reg("numpy.linalg.vector_norm")
+def np_vector_norm(interp, name, args, kw, st, node):
+    """NumPy 2 spelling of the vector norm along an axis (default: of all entries)"""
+    b = bind(["x", "axis", "keepdims", "ord"], args, kw)
+    kw2 = {k: v for k, v in (("axis", b.get("axis")), ("keepdims", b.get("keepdims")), ("ord", b.get("ord"))) if v is not None and v.kind != "none"}
+    for k_ in ("x", "axis", "keepdims", "ord"):
+        kw.pop(k_, None)
+    if "axis" not in kw2 and shape(arrv(b["x"])) is not None and len(shape(arrv(b["x"]))) > 1:
+        return fresh_arr(callterm(name, args, kw2), None, _L(*args))  # flattened norm of a matrix: not modelled
+    return np_norm(interp, "numpy.linalg.norm", [b["x"]], kw2, st, node)
+
+
 @reg("numpy.transpose")
 def np_transpose(interp, name, args, kw, st, node):
     x = arrv(args[0])
